@@ -25,7 +25,7 @@ ASSUMPTIONS = [
     'the value order (ties depend on storage order)',
 ]
 ANCHORS = ['Table.transform', 'Table.norm', 'Table.pa', 'Table.rankdata', '_normalize_table']
-REQUIRED = ['tap_calls_checked', 'op_transform', 'op_norm', 'op_pa',
+REQUIRED = ['norm_signed_positive_total_vectors', 'tap_calls_checked', 'op_transform', 'op_norm', 'op_pa',
             'op_rankdata', 'cli_runs', 'axis_agreement_checked',
             'layout_csc_seen', 'layout_unsorted_seen', 'zero_cells_checked']
 
@@ -159,6 +159,13 @@ def run_case(ctx, index):
         fname = r.choice(elem)
         f, elementwise, rtol, domain = FUNCS[fname]
         vcl = ['count', 'dyadic', 'frac', 'neg', 'tiny', 'manydigits']
+    signed_norm = op == 'norm' and r.random() < .3
+    if signed_norm:
+        # vectors holding negative entries too: those whose total is
+        # positive are still to be scaled to sum 1 (small whole numbers, so
+        # every total is exact)
+        vcl = ['neg']
+        ctx.count('norm_signed_tables')
     spec = gen.gen_spec(r, max_n=6, max_m=6, value_classes=vcl)
     if op in ('norm', 'cli') and r.random() < .25 and spec.D.any() and \
             np.all(spec.D >= 0):
@@ -215,6 +222,18 @@ def run_case(ctx, index):
             else:
                 exp.D = np.where(tot[None, :] > 0, spec.D / np.where(
                     tot[None, :] > 0, tot[None, :], 1), 0.)
+        if signed_norm:
+            # nothing is stated about vectors whose total is not positive:
+            # take those as they come
+            got = snap.snap(res).D
+            if got.shape == exp.D.shape:
+                if axis == 'observation':
+                    exp.D[tot <= 0, :] = got[tot <= 0, :]
+                else:
+                    exp.D[:, tot <= 0] = got[:, tot <= 0]
+            if np.any((tot > 0) & (np.min(
+                    spec.D, axis=1 if axis == 'observation' else 0) < 0)):
+                ctx.count('norm_signed_positive_total_vectors')
         finish(res, exp, 'C13/norm-result', rtol=1e-12)
         D = snap.snap(res).D
         sums = D.sum(axis=1 if axis == 'observation' else 0)
